@@ -36,7 +36,7 @@ import ast
 from .. import Undecided
 from ..expr import canon, lin, call_name, unparse, negate, conj, kwarg
 from ..model import stmt_text
-from ..fold import fold, Unknown, select_paths
+from ..fold import fold, Unknown, select_paths, guard_truth
 
 EXPLANATION = __doc__
 LEVEL_RULE = 'one obligation per table entry, per fold case (4 spellings x 2 byte orders + default), per codec parameter and per value flow'
@@ -204,6 +204,72 @@ def check_compile(ctx, ci, comp):
                 env = dict(base, **{'self.endianness': spelling, 'sys.byteorder': order, 'self.byte_count': n, 'self.is_signed': False})
                 decide(rule, 'struct format of Int(%d, endianness=%r) on a %s-endian host' % (n, spelling, order), env,
                        ('standard size, %s endian' % ('big' if wanted else 'little'), '%d bytes' % n, 'unsigned'), fmt, 'a')
+
+
+def check_generic_range_is_codec_range(ctx, ci, comp, rule='R9-generic-range'):
+    """Round 9.  for the widths the code generator packs with one struct call (1, 2, 4, 8 bytes),
+    the pack strategy of the field loop accepts every value the struct code accepts: a test of its
+    own in front of the codec (``abs(value) > self.max_magnitude``) is folded, for every width
+    and signedness, at the boundary values of the code's range -- a value of the range for which a
+    raising path is selected is packed by the generated code and rejected by the field loop"""
+    repo = ctx.repo
+    w = repo.walker(max_paths=ctx.max_paths, inline_depth=ctx.depth, keep={'_compile_impl'})
+    paths = [p for p in w.paths(comp.node, cls=ci) if not p.raises()]
+    GETV = 'getattr(pkt, self.field_name)'
+    n_cfg = 0
+    reported = set()
+    for n in (1, 2, 4, 8):
+        for signed in (False, True):
+            env = {'self.endianness': 'big', 'sys.byteorder': 'little', 'self.byte_count': n, 'self.is_signed': signed, 'bisturi_conf': {}}
+            sel = select_paths(paths, env)
+            for p in sel:
+                fin = {}
+                for e in p.effects:
+                    if e.kind == 'store_attr' and canon(e.obj) == 'self':
+                        fin[e.name] = e.value
+                pk = fin.get('pack')
+                if not (isinstance(pk, ast.Attribute) and canon(pk.value) == 'self'):
+                    continue
+                sfi = repo.method(ci, pk.attr)
+                if sfi is None:
+                    continue
+                spaths = repo.walker(max_paths=ctx.max_paths).paths(sfi.node, cls=ci)
+                if not any(sp.raises() for sp in spaths):
+                    n_cfg += 1
+                    continue
+                env2 = dict(env)
+                for k_, v_ in fin.items():
+                    try:
+                        env2['self.%s' % k_] = fold(v_, env2)
+                    except Unknown:
+                        pass
+                lo, hi = (-(1 << (8 * n - 1)), (1 << (8 * n - 1)) - 1) if signed else (0, (1 << (8 * n)) - 1)
+                n_cfg += 1
+                verdict = None
+                for v in sorted(x for x in {lo, lo + 1, -1, 0, 1, hi - 1, hi} if lo <= x <= hi):
+                    env3 = dict(env2, **{GETV: v})
+                    cand = select_paths(spaths, env3)
+                    certain = [sp for sp in cand if all(guard_truth(g, pol, env3) is True for g, pol in sp.guards)]
+                    st = 'Int(%d, signed=%s).%s with value %d' % (n, signed, pk.attr, v)
+                    if len(certain) == 1 and len(cand) == 1:
+                        if certain[0].raises() and not any(t.startswith('caught(') for t in certain[0].guard_texts()):
+                            key = (pk.attr, n, signed)
+                            if key not in reported:
+                                reported.add(key)
+                                ctx.violation(rule, sfi, st, 'the field loop rejects %d [%s], a value the struct code of this field packs: the generated code (one struct call for the run) writes its bytes, the field-by-field interpretation raises a PacketError' % (
+                                    v, '; '.join(sorted(certain[0].guard_texts()))[:120]), sfi.node.lineno, clause='a', witness=True)
+                            verdict = False
+                    elif any(sp.raises() for sp in cand):
+                        if verdict is None:
+                            verdict = 'open'
+                if verdict is None:
+                    ctx.holds(rule, sfi, 'Int(%d, signed=%s).%s: its own range test folds to "accept" on the whole range of the struct code' % (n, signed, pk.attr), 'boundary values %d .. %d' % (lo, hi), sfi.node.lineno, clause='a')
+                elif verdict == 'open':
+                    ctx.undecided(rule, sfi, 'Int(%d, signed=%s).%s' % (n, signed, pk.attr), 'a test in front of the codec does not fold for a boundary value of the range', sfi.node.lineno, clause='a')
+    if n_cfg:
+        ctx.holds(rule, comp, 'primitive-width pack strategies examined for %d configurations' % n_cfg, 'no value of the struct range is rejected before the codec', comp.node.lineno, clause='a')
+    else:
+        ctx.undecided(rule, comp, 'Int._compile', 'cannot see which pack strategy a primitive width installs', comp.node.lineno, clause='a')
 
 
 def _replace_conf_get(e, value):
@@ -443,6 +509,7 @@ def check(ctx):
         raise Undecided('anchor Int._compile not found')
     ctx.unit('functions', 6)
     check_compile(ctx, ci, comp)
+    check_generic_range_is_codec_range(ctx, ci, comp)
     check_codecs(ctx, ci)
     check_ctor(ctx, ci)
     from .c03 import check_struct_block
